@@ -381,16 +381,29 @@ def evaluate(text: str, want_prune_info: bool = False) -> Outcome:
 
 
 def classify_position(text, ln, cn, p) -> str:
-    # EOF error after a token that spans lines: the parser synthesises the eof position as
-    # (first line of the last token, its column + its length)
-    if p is not None and p.current.tid == 'eof' and isinstance(ln, int) and isinstance(cn, int):
-        toks = scan(text)
-        while toks and toks[-1][0] == 'ws':
-            toks.pop()
-        if toks and toks[-1][0] in ('mlstr', 'str') and text.count('\n', toks[-1][1], toks[-1][2]) > 0:
-            k, a, b = toks[-1]
+    if not (isinstance(ln, int) and isinstance(cn, int)):
+        return 'C02:position:outside-text'
+    toks = scan(text)
+    # (a) EOF error after a token that spans lines: the parser synthesises the eof position as
+    #     (first line of the last token, its column + its length)
+    if p is not None and p.current.tid == 'eof':
+        tk = list(toks)
+        while tk and tk[-1][0] == 'ws':
+            tk.pop()
+        if tk and tk[-1][0] in ('mlstr', 'str') and text.count('\n', tk[-1][1], tk[-1][2]) > 0:
+            k, a, b = tk[-1]
             if ln == text.count('\n', 0, a) + 1 - _uncounted_newlines(text, a) and cn >= b - a:
                 return 'C02:position:eof-after-multiline-token'
+    # (b) newline inside a plain '...' string not counted: the position is right once lines are counted the way the
+    #     lexer does (ignoring those newlines), and at least one ignored newline precedes it
+    ignored = [i for k, a, b in toks if k == 'str' for i in range(a, b) if text[i] == '\n']
+    if ignored and ln >= 1:
+        counted = [i for i, c in enumerate(text) if c == '\n' and i not in set(ignored)]
+        if ln - 2 < len(counted):
+            start = 0 if ln == 1 else counted[ln - 2] + 1
+            off = start + cn
+            if 0 <= off <= len(text) and any(i < off for i in ignored):
+                return 'C02:position:newline-in-plain-string'
     return 'C02:position:outside-text'
 
 
